@@ -33,6 +33,9 @@ def build_corpus(tier, seed):
         [("seq", [("sub", [("opt", L("a,")), ("many", ("opt", L("a,")))]), L("end")])],
         [("alt", [("seq", [L("a"), ("fb", [L("b"), L("c"), L("d")])]), ("seq", [L("e"), ("fb", [L("c"), L("b"), L("d")])]), ("seq", [L("f"), ("fb", [L("b"), L("c"), L("d")])])])],
     ]
+    # an automaton on which some refinement orders of the popped-block-is-split case end coarser than the Nerode partition
+    bb, cc = L("b"), L("c")
+    shapes.append([("seq", [("seq", [("alt", [bb, ("opt", bb), cc]), ("alt", [cc, ("opt", cc)]), bb, bb]), ("opt", ("alt", [bb, bb])), bb])])
     for vs in shapes:
         c = gen.case(vs, [], shell="bash")
         fam.append(corpus.finish(c, len(a) + len(b) + len(rc) + len(fam) + 1, origin="family"))
